@@ -5,7 +5,8 @@ For each seed: apply patch -> build -> demo must FAIL -> pinned baseline suite m
 usage: verify_seeds.py [Cxx/a ...]"""
 import json,os,re,subprocess,sys,shutil,glob,concurrent.futures as cf
 SRC=os.environ.get('SEED_SRC','/tmp/seedout')
-NMAP={'a':'a','b':'b'} if SRC=='/tmp/seedout' else {'a':'c','b':'d'}
+NMAP={'/tmp/seedout':{'a':'a','b':'b'},'/tmp/seedout2':{'a':'c','b':'d'},'/tmp/seedout3':{'a':'e','b':'f'}}[SRC]
+ROUND={'/tmp/seedout':1,'/tmp/seedout2':2,'/tmp/seedout3':3}[SRC]
 ENV=dict(os.environ,GOFLAGS='-mod=mod',GOPROXY='off',GOSUMDB='off',GOTOOLCHAIN='local')
 ENV.pop('GOWORK',None)
 def sh(cmd,cwd=None,timeout=3000):
@@ -18,7 +19,7 @@ def one(seed):
     os.makedirs(out,exist_ok=True)
     demos=glob.glob(d+'/*_test.go')
     notes=open(d+'/NOTES.md').read() if os.path.exists(d+'/NOTES.md') else ''
-    meta={'property':pid,'seed':pid+'/'+NMAP[n],'round':1 if SRC=='/tmp/seedout' else 2,'ran':[]}
+    meta={'property':pid,'seed':pid+'/'+NMAP[n],'round':ROUND,'ran':[]}
     wt=f'/tmp/vs-{pid}{NMAP[n]}'
     sh(f'git -C /repo worktree remove --force {wt}; git -C /repo worktree prune')
     rc,o=sh(f'git -C /repo worktree add -q --detach {wt} HEAD')
